@@ -5,7 +5,7 @@ import json, os, re
 import vlib
 from vlib import CheckError
 
-WHAT = {0: "concurrent-lookup", 1: "lookup", 2: "listing", 3: "shape", 4: "root-not-nil-when-empty", 5: "pointers", 6: "crash", 7: "undecodable-op-or-bad-concurrent-plan"}
+WHAT = {0: "concurrent-lookup", 1: "lookup", 2: "per-peer-listing", 3: "shape", 4: "root-not-nil-when-empty", 5: "pointers", 6: "crash", 7: "undecodable-op-or-bad-concurrent-plan"}
 OPK = {1: "insert", 2: "remove", 3: "remove-by-peer"}
 
 SWEEP_HEAD = ("From WG Require Import Base.Prelude AllowedIPs.Trie AllowedIPs.Spec AllowedIPs.Check.\n"
